@@ -31,6 +31,7 @@ fn parse_opts(args: &[String]) -> Opts {
     let mut runs = None;
     let mut dump_hashes = None;
     let mut write_evidence = true;
+    let mut child_json = None;
     let mut i = 0;
     while i < args.len() {
         match args[i].as_str() {
@@ -55,6 +56,10 @@ fn parse_opts(args: &[String]) -> Opts {
                 dump_hashes = Some(PathBuf::from(&args[i]));
             },
             "--no-evidence" => write_evidence = false,
+            "--child-json" => {
+                i += 1;
+                child_json = Some(PathBuf::from(&args[i]));
+            },
             "quick" => tier = Tier::Quick,
             "thorough" => tier = Tier::Thorough,
             other => {
@@ -74,6 +79,7 @@ fn parse_opts(args: &[String]) -> Opts {
         dump_hashes,
         write_evidence,
         max_wall_s: if tier == Tier::Quick { 1_500 } else { 6 * 3600 },
+        child_json,
     }
 }
 
@@ -104,15 +110,51 @@ fn main() {
             let path = &args[1];
             let f: ReplayFile =
                 serde_json::from_str(&std::fs::read_to_string(path).expect("read replay file")).expect("replay parses");
-            match f.property.as_str() {
-                "C01" => replay_file(&checks::c01::C01, &f, path),
-                other => {
-                    eprintln!("no replay handler for {}", other);
-                    2
-                },
+            macro_rules! rp {
+                ($($id:literal => $c:expr),* $(,)?) => {
+                    match f.property.as_str() {
+                        $($id => replay_file(&$c, &f, path),)*
+                        other => {
+                            eprintln!("no replay handler for {}", other);
+                            2
+                        },
+                    }
+                };
+            }
+            rp! {
+                "C01" => checks::c01::C01,
+                "C03" => checks::c03::C03,
+                "C20" => checks::c20::C20,
             }
         },
         "C01" => drive(&checks::c01::C01, &parse_opts(&args[1..]), vec![]),
+        "C03" => drive(&checks::c03::C03, &parse_opts(&args[1..]), vec![]),
+        "C20" => {
+            let opts = parse_opts(&args[1..]);
+            let mut extra = vec![];
+            if opts.child_json.is_none() {
+                // second configuration: the other build profile of the library
+                if let Ok(bin) = std::env::var("BPSIM_OTHER_BIN") {
+                    let other = std::env::var("BPSIM_OTHER_PROFILE").unwrap_or_else(|_| "release".into());
+                    let mut a: Vec<String> = vec!["C20".into(), "--tier".into(), opts.tier.name().into(), "--seed".into(), opts.seed.to_string(), "--jobs".into(), opts.jobs.to_string()];
+                    if let Some(r) = opts.runs {
+                        a.push("--runs".into());
+                        a.push(r.to_string());
+                    }
+                    extra.push(runner::child_phase(&format!("profile_{}", other), &bin, &a, &[("BPSIM_PROFILE", other.as_str())]));
+                } else {
+                    extra.push(runner::ExtraPhase {
+                        name: "profile_other".into(),
+                        evaluations: 0,
+                        distinct: 0,
+                        info: serde_json::Value::Null,
+                        found: vec![],
+                        error: Some("BPSIM_OTHER_BIN not set: run C20 through ./bpsim.sh so that both build profiles are exercised".into()),
+                    });
+                }
+            }
+            drive(&checks::c20::C20, &opts, extra)
+        },
         other => {
             eprintln!("unknown command {}", other);
             2
